@@ -142,8 +142,13 @@ def finish(rep, seed=0, quiet=False):
         else:
             viols.append(ob)
     wall = time.time() - rep.t0
-    os.makedirs(EVIDENCE_DIR, exist_ok=True)
-    replay = os.path.join(EVIDENCE_DIR, '%s.violation.json' % rep.pid)
+    # evidence of the registered checks is about /repo; runs against scratch copies (--root) write elsewhere
+    evdir = EVIDENCE_DIR
+    if os.path.realpath(rep.repo.root) != os.path.realpath(os.environ.get('VT_ROOT', '/repo')) or os.environ.get('VT_EVIDENCE_DIR'):
+        import tempfile
+        evdir = os.environ.get('VT_EVIDENCE_DIR') or os.path.join(tempfile.gettempdir(), 'vt_evidence_scratch')
+    os.makedirs(evdir, exist_ok=True)
+    replay = os.path.join(evdir, '%s.violation.json' % rep.pid)
     out = []
     for ob, k in knowns:
         out.append('KNOWN-FINDING: property=%s rule=%s %s -- %s' % (rep.pid, ob.rule, ob.key, k.get('what', ob.detail)))
@@ -218,7 +223,9 @@ def finish(rep, seed=0, quiet=False):
     ev['coverage'].update(rep.extra)
     if rep.gaps:
         ev['coverage']['analysis_gaps'] = list(rep.gaps)
-    with open(os.path.join(EVIDENCE_DIR, '%s.json' % rep.pid), 'w') as f:
+    ev['coverage']['normalisation'] = dict((m.relpath, m.inlined_calls) for m in rep.repo._mods.values()
+                                           if getattr(m, 'inlined_calls', 0))
+    with open(os.path.join(evdir, '%s.json' % rep.pid), 'w') as f:
         json.dump(ev, f, indent=1, sort_keys=True, default=str)
     if not quiet:
         for line in out:
